@@ -128,8 +128,8 @@ def verify(ctx, sys_, swbs, ends, status, n, where, model, label):
         if ids != list(range(1, len(ids) + 1)):
             ctx.count("bus_ids_not_consecutive")
     # ---- correspondence
-    if model and ctx.model_available and ends:
-        out = ctx.model.call("bus.config", swbs=swbs, ends=[list(e) for e in ends], status=status, n=n)
+    if model and ctx.model_available:
+        out = ctx.model.call("bus.config", swbs=swbs, ends=[list(e) for e in ends], status=status, n=n_eff)
         if out["change_idx"] != idx:
             ctx.fail("correspondence", "change-index", f"{label}model {out['change_idx']} impl {idx}", where)
         else:
@@ -139,6 +139,10 @@ def verify(ctx, sys_, swbs, ends, status, n, where, model, label):
                     break
                 if per["no_bus"] != no_bus[i]:
                     ctx.fail("correspondence", "bus-count", f"period {i}: model {per['no_bus']} impl {no_bus[i]}", where)
+                    break
+                # the numbers themselves: 1..k in order of first appearance (the balance keeps its sums under these numbers, D26)
+                if {a: b for a, b in per["map"]} != maps[i]:
+                    ctx.fail("correspondence", "bus-numbering", f"period {i}: model {per['map']} impl {maps[i]}", where)
                     break
     return True
 
